@@ -40,7 +40,7 @@ var bCache = map[string][]sk.Obs{}
 var reduced = map[sk.Kind][]string{
 	sk.Bridge: {"empty", "bridge", "bridge2", "migrate", "rmlegacy", "same"},
 	sk.L1Info: {"empty", "info", "info2", "verify", "v2"},
-	sk.GER:    {"empty", "insert", "remove", "insertinfo"},
+	sk.GER:    {"empty", "insert", "remove", "insertinfo", "again"},
 }
 
 func units(tier string) []mc.Unit {
